@@ -1634,4 +1634,142 @@ theorem Block.admissible_of_WF (b : Block ℝ) (h : b.WF) : b.Admissible := by
     · exact blk_in_cone hmu hD0 (fun i => (hts ts[i] (List.getElem_mem _)).1)
         (fun i => (hts ts[i] (List.getElem_mem _)).2) _ _
 
+section interior
+variable {n : ℕ} {D0 mu : ℝ} {D w : Fin n → ℝ}
+
+/-! ### zone interiors without the impedance relation -/
+
+theorem top_of_pos (hmu : 0 < mu) {j0 : ℝ} {jar : Fin n → ℝ} (h : 0 < j0 * mu - mu * TT w jar) :
+    blkZone mu w j0 jar = Zone.top := by
+  rw [blkZone_eq hmu, if_pos h.le]
+
+theorem bottom_of_neg (hmu : 0 < mu) {j0 : ℝ} {jar : Fin n → ℝ} (h1 : j0 * mu - mu * TT w jar < 0)
+    (h2 : mu * (j0 * mu) + TT w jar < 0) : blkZone mu w j0 jar = Zone.bottom := by
+  rw [blkZone_eq hmu, if_neg (not_le.mpr h1), if_pos h2.le]
+
+/-- along a coordinate line the two zone functions `s`, `q` are continuous -/
+theorem sq_continuous_tangent (j0 : ℝ) (jar : Fin n → ℝ) (j : Fin n) :
+    Continuous (fun t => j0 * mu - mu * TT w (Function.update jar j t)) ∧
+    Continuous (fun t => mu * (j0 * mu) + TT w (Function.update jar j t)) :=
+  ⟨continuous_const.sub (continuous_const.mul (TT_update_continuous w jar j)),
+   continuous_const.add (TT_update_continuous w jar j)⟩
+
+theorem zone_eventually_tangent (hmu : 0 < mu) {j0 : ℝ} {jar : Fin n → ℝ} (j : Fin n) {z : Zone}
+    (hz : blkZone mu w j0 jar = z)
+    (hint : (z = Zone.top → 0 < j0 * mu - mu * TT w jar) ∧
+            (z = Zone.bottom → mu * (j0 * mu) + TT w jar < 0)) :
+    ∀ᶠ t in 𝓝 (jar j), blkZone mu w j0 (Function.update jar j t) = z := by
+  obtain ⟨c1, c2⟩ := sq_continuous_tangent (mu := mu) (w := w) j0 jar j
+  have hself : Function.update jar j (jar j) = jar := Function.update_eq_self j jar
+  rcases blkZone_cases (w := w) hmu j0 jar with ⟨h, h1, h2⟩ | ⟨h, h1, h2⟩ | ⟨h, h1, h2⟩
+  · have hz' : z = Zone.top := by rw [← hz, h]
+    have hp := hint.1 hz'
+    have e1 := (continuousAt_const (y := (0 : ℝ))).eventually_lt c1.continuousAt
+      (by show 0 < j0 * mu - mu * TT w (Function.update jar j (jar j)); rw [hself]; exact hp)
+    filter_upwards [e1] with t ht
+    rw [hz']; exact top_of_pos hmu ht
+  · have hz' : z = Zone.bottom := by rw [← hz, h]
+    have hp := hint.2 hz'
+    have e1 := c1.continuousAt.eventually_lt (g := fun _ => (0 : ℝ)) continuousAt_const
+      (by show j0 * mu - mu * TT w (Function.update jar j (jar j)) < 0; rw [hself]; exact h1)
+    have e2 := c2.continuousAt.eventually_lt (g := fun _ => (0 : ℝ)) continuousAt_const
+      (by show mu * (j0 * mu) + TT w (Function.update jar j (jar j)) < 0; rw [hself]; exact hp)
+    filter_upwards [e1, e2] with t ht1 ht2
+    rw [hz']; exact bottom_of_neg hmu ht1 ht2
+  · have hz' : z = Zone.middle := by rw [← hz, h]
+    rw [hz']; exact middle_eventually_tangent hmu h j
+
+theorem zone_eventually_normal (hmu : 0 < mu) {j0 : ℝ} {jar : Fin n → ℝ} {z : Zone}
+    (hz : blkZone mu w j0 jar = z)
+    (hint : (z = Zone.top → 0 < j0 * mu - mu * TT w jar) ∧
+            (z = Zone.bottom → mu * (j0 * mu) + TT w jar < 0)) :
+    ∀ᶠ t in 𝓝 j0, blkZone mu w t jar = z := by
+  have c1 : ContinuousAt (fun t : ℝ => t * mu - mu * TT w jar) j0 := by fun_prop
+  have c2 : ContinuousAt (fun t : ℝ => mu * (t * mu) + TT w jar) j0 := by fun_prop
+  rcases blkZone_cases (w := w) hmu j0 jar with ⟨h, h1, h2⟩ | ⟨h, h1, h2⟩ | ⟨h, h1, h2⟩
+  · have hz' : z = Zone.top := by rw [← hz, h]
+    have e1 := (continuousAt_const (y := (0 : ℝ))).eventually_lt c1 (hint.1 hz')
+    filter_upwards [e1] with t ht
+    rw [hz']; exact top_of_pos hmu ht
+  · have hz' : z = Zone.bottom := by rw [← hz, h]
+    have e1 := c1.eventually_lt (g := fun _ => (0 : ℝ)) continuousAt_const h1
+    have e2 := c2.eventually_lt (g := fun _ => (0 : ℝ)) continuousAt_const (hint.2 hz')
+    filter_upwards [e1, e2] with t ht1 ht2
+    rw [hz']; exact bottom_of_neg hmu ht1 ht2
+  · have hz' : z = Zone.middle := by rw [← hz, h]
+    rw [hz']; exact middle_eventually_normal hmu h
+
+/-- the quadratic sum along a coordinate line -/
+theorem quad_update (D jar : Fin n → ℝ) (j : Fin n) (t : ℝ) :
+    ∑ i, 1 / 2 * D i * Function.update jar j t i * Function.update jar j t i =
+      1 / 2 * D j * t * t + ∑ i ∈ Finset.univ.erase j, 1 / 2 * D i * jar i * jar i := by
+  rw [← Finset.add_sum_erase _ _ (Finset.mem_univ j)]
+  congr 1
+  · simp
+  · refine Finset.sum_congr rfl fun k hk => ?_
+    rw [Function.update_of_ne (Finset.ne_of_mem_erase hk)]
+
+/-- in the interior of a zone (top: `N > mu T`; bottom: `mu N + T < 0`; middle: always open) the
+    normal force is minus the partial derivative of the cost — no relation between the `D` needed -/
+theorem blk_interior_normal (hmu : 0 < mu) (j0 : ℝ) (jar : Fin n → ℝ)
+    (hint : (blkZone mu w j0 jar = Zone.top → 0 < j0 * mu - mu * TT w jar) ∧
+            (blkZone mu w j0 jar = Zone.bottom → mu * (j0 * mu) + TT w jar < 0)) :
+    HasDerivAt (fun t => blkCost D0 mu D w t jar) (-(blkForceN D0 mu w j0 jar)) j0 := by
+  have hev := zone_eventually_normal (w := w) hmu (z := blkZone mu w j0 jar) rfl hint
+  have hev' : (fun t => blkCost D0 mu D w t jar) =ᶠ[𝓝 j0]
+      fun t => costZ D0 mu D w (blkZone mu w j0 jar) t jar := by
+    filter_upwards [hev] with t ht
+    rw [blkCost_eq_costZ, ht]
+  refine HasDerivAt.congr_of_eventuallyEq ?_ hev'
+  rw [blkForceN_eq_forceNZ]
+  cases blkZone mu w j0 jar with
+  | top => simp only [costZ, forceNZ, neg_zero]; exact hasDerivAt_const _ _
+  | bottom =>
+    simp only [costZ, forceNZ]
+    have h := (((hasDerivAt_id' j0).const_mul (1 / 2 * D0)).fun_mul (hasDerivAt_id' j0)).add_const
+      (∑ i, 1 / 2 * D i * jar i * jar i)
+    refine h.congr_deriv ?_
+    ring
+  | middle =>
+    simp only [costZ, forceNZ]
+    have hs := ((hasDerivAt_id' j0).mul_const mu).sub_const (mu * TT w jar)
+    have h := (hs.const_mul (1 / 2 * ellDm D0 mu)).fun_mul hs
+    refine h.congr_deriv ?_
+    ring
+
+/-- … and the tangential forces are minus the partial derivatives in the tangential residuals -/
+theorem blk_interior_tangent (hmu : 0 < mu) (j0 : ℝ) (jar : Fin n → ℝ) (i : Fin n)
+    (hint : (blkZone mu w j0 jar = Zone.top → 0 < j0 * mu - mu * TT w jar) ∧
+            (blkZone mu w j0 jar = Zone.bottom → mu * (j0 * mu) + TT w jar < 0)) :
+    HasDerivAt (fun t => blkCost D0 mu D w j0 (Function.update jar i t))
+      (-(blkForceT D0 mu D w j0 jar i)) (jar i) := by
+  have hev := zone_eventually_tangent (w := w) hmu i (z := blkZone mu w j0 jar) rfl hint
+  have hev' : (fun t => blkCost D0 mu D w j0 (Function.update jar i t)) =ᶠ[𝓝 (jar i)]
+      fun t => costZ D0 mu D w (blkZone mu w j0 jar) j0 (Function.update jar i t) := by
+    filter_upwards [hev] with t ht
+    rw [blkCost_eq_costZ, ht]
+  refine HasDerivAt.congr_of_eventuallyEq ?_ hev'
+  rw [blkForceT_eq_forceTZ]
+  cases hz : blkZone mu w j0 jar with
+  | top => simp only [costZ, forceTZ, neg_zero]; exact hasDerivAt_const _ _
+  | bottom =>
+    simp only [costZ, forceTZ, quad_update]
+    have h := ((((hasDerivAt_id' (jar i)).const_mul (1 / 2 * D i)).fun_mul (hasDerivAt_id' (jar i))).add_const
+      (∑ k ∈ Finset.univ.erase i, 1 / 2 * D k * jar k * jar k)).const_add (1 / 2 * D0 * j0 * j0)
+    refine h.congr_deriv ?_
+    ring
+  | middle =>
+    obtain ⟨_, _, hT⟩ := middle_pos hmu hz
+    simp only [costZ, forceTZ, forceNZ]
+    have hd := TT_update_hasDerivAt w jar i hT.ne'
+    have hs := (hd.const_mul mu).const_sub (j0 * mu)
+    have h := (hs.const_mul (1 / 2 * ellDm D0 mu)).fun_mul hs
+    refine h.congr_deriv ?_
+    simp only [Function.update_eq_self]
+    have := hT.ne'
+    field_simp
+    ring
+
+end interior
+
 end MjProof.Constraint
